@@ -292,16 +292,16 @@ Proof.
                         |clear F; t1solve|left; split; reflexivity].
   - (* feread_wait *)
     match goal with Hm : main th = _ |- _ => rewrite Hm in * end. cbn in Tpc, Tneed, N0.
-    destruct (valid_st_idx _ Tpc) as [Hlt _].
+    specialize (N0 eq_refl). specialize (Tneed eq_refl).
     eapply Inv1_update; [exact I|exact Hth|apply get_same; gts; congruence|exact F| |left; split; reflexivity].
-    clear F. split; gts; rewrite ?nclear_app, ?nbadcb_app; cbn; rewrite ?Hlt, ?N0; cbn; auto; try lia.
-    Show.
+    clear F. destruct (valid_st_cases _ Tpc) as [->| ->];
+      (split; gts; rewrite ?nclear_app, ?nbadcb_app; cbn; rewrite ?N0, ?Tcb; cbn; auto; try lia; try discriminate).
   - (* fewrite *)
     match goal with Hm : main th = _ |- _ => rewrite Hm in * end. cbn in Tpc, Tneed, N0.
-    destruct (valid_st_idx _ Tpc) as [Hlt _].
+    specialize (N0 eq_refl). specialize (Tneed eq_refl).
     eapply Inv1_update; [exact I|exact Hth|apply get_same; gts; congruence|exact F| |left; split; reflexivity].
-    clear F. split; gts; cbn; rewrite ?Hlt; auto.
-    intros X. destruct (Tco X). discriminate.
+    clear F. destruct (valid_st_cases _ Tpc) as [->| ->];
+      (split; gts; cbn; auto; try lia; intros X; rewrite N0 in X; discriminate).
   - (* cbenq *)
     match goal with Hc : nth_error (cbs th) _ = Some _ |- _ =>
       pose proof (nbadcb_nth _ _ _ Hc Tcb) as Hfe;
@@ -310,7 +310,7 @@ Proof.
       pose proof (nbadcb_upd _ _ _ (CbUnl (URead 0)) Hc) as Hbu;
       pose proof (nbadcb_remove _ _ _ Hc) as Hbr end.
     eapply Inv1_update; [exact I|exact Hth|apply get_same; gts; congruence|exact F| |left; gts; split; reflexivity].
-    clear F. cbn in Hu, Hr, Hbu, Hbr. rewrite Hfe in *. cbn in Hbu, Hbr.
+    clear F. rewrite Hfe in Hbu, Hbr. cbn in Hu, Hr, Hbu, Hbr.
     destruct unl; cbn in Hu, Hr; split; gts; auto; try lia.
     + intros X. apply Tco. lia.
     + intros X. apply Tco. lia.
